@@ -294,7 +294,9 @@ Inductive op :=
 | Unjail (a : addr)                    (* slashing unjail *)
 | ExtJail (a : addr)                   (* jailed by staking / slashing directly *)
 | Jail (a : addr)                      (* valset.Jail called by another module *)
-| EndBlock (dh dt : Z).                (* end-block, then the chain moves on by dh blocks and dt ns *)
+| EndBlock (dh dt : Z)                 (* end-block, then the chain moves on by dh blocks and dt ns *)
+| Tick (dh dt : Z).                    (* the chain moves on without a valset end-block: [EndBlock 0 0; Jail a; Tick 1 dt]
+                                          is a block in which a module whose end-blocker runs AFTER valset's jails [a] *)
 
 Definition step (s : state) (o : op) : state :=
   match o with
@@ -314,6 +316,7 @@ Definition step (s : state) (o : op) : state :=
   | ExtJail a => set_vals s (set_jailed a true (vals s))
   | Jail a => fst (jail s a)
   | EndBlock dh dt => let s' := fst (end_block s) in set_clock s' (height s' + dh) (now s' + dt)
+  | Tick dh dt => set_clock s (height s + dh) (now s + dt)
   end.
 
 Definition run (ops : list op) (s : state) : state := fold_left step ops s.
@@ -337,4 +340,4 @@ Arguments jail {version}. Arguments sweep_one {version}. Arguments sweep {versio
 Arguments step {version}. Arguments run {version}. Arguments init {version}.
 Arguments AddVal {version}. Arguments SetEnv {version}. Arguments BeginBlock {version}. Arguments KeepAlive {version}.
 Arguments SetMin {version}. Arguments Schedule {version}. Arguments Unjail {version}. Arguments ExtJail {version}.
-Arguments Jail {version}. Arguments EndBlock {version}.
+Arguments Jail {version}. Arguments EndBlock {version}. Arguments Tick {version}.
